@@ -217,7 +217,9 @@ class ModelCacheMixin:
     def split(self):
         results = super().split()
         for r in results:
-            r._models = {m.filter(r.variables) for m in self._models}
+            # keep the model a part may already have derived from its own constraints (it is what its
+            # "exhausted" marks refer to)
+            r._models.update(m.filter(r.variables) for m in self._models)
         return results
 
     def combine(self, others):
